@@ -21,6 +21,41 @@ type PairCase struct {
 	W    *m.Val `json:"w"`
 	Rel  string `json:"rel"`            // copy | permuted | leaf-changed | unrelated
 	Host bool   `json:"host,omitempty"` // values go through conv (Go host data) instead of the value constructors
+	// v is built with sub-values that read alike being ONE value reachable several times
+	// (w never is): the two ways of building one value must not be distinguishable
+	ShareV bool `json:"sharev,omitempty"`
+}
+
+// dupParts makes sub-values repeat: a list gets a copy of one of its elements appended, map
+// values and object fields of one type are made alike.
+func dupParts(t *rapid.T, v *m.Val) *m.Val {
+	n := &m.Val{T: v.T, N: v.N, S: v.S, B: v.B, Tm: v.Tm, Fn: v.Fn}
+	for _, x := range v.L {
+		n.L = append(n.L, dupParts(t, x))
+	}
+	for _, e := range v.M {
+		n.M = append(n.M, m.Entry{K: e.K, V: dupParts(t, e.V)})
+	}
+	if v.P != nil {
+		n.P = dupParts(t, v.P)
+	}
+	switch v.T.K {
+	case m.TList:
+		if len(n.L) > 0 && rapid.Bool().Draw(t, "duplist") {
+			n.L = append(n.L, n.L[rapid.IntRange(0, len(n.L)-1).Draw(t, "dupi")])
+		}
+	case m.TMap:
+		if len(n.M) > 1 && rapid.Bool().Draw(t, "dupmap") {
+			n.M[len(n.M)-1].V = n.M[0].V
+		}
+	case m.TObj:
+		for i := 1; i < len(n.L); i++ {
+			if m.Equal(n.L[i].T, n.L[0].T) && n.L[i].T.OrderString() == n.L[0].T.OrderString() && rapid.Bool().Draw(t, "dupfield") {
+				n.L[i] = n.L[0]
+			}
+		}
+	}
+	return n
 }
 
 func leaves(v *m.Val, path string, out *[]string) {
@@ -83,6 +118,10 @@ func genPairCase(t *rapid.T) *PairCase {
 	ty := gen.Type(t, gen.TypeOpt{Depth: rapid.IntRange(1, 4).Draw(t, "depth"), Maybe: true, MaxFields: 3, MaybeInFields: true}).FixKeys()
 	o := gen.ValOpt{MaxLen: 3, Clear: true, Zones: zones}
 	c := &PairCase{V: gen.Value(t, ty, o)}
+	if rapid.IntRange(0, 2).Draw(t, "dupparts") == 0 {
+		c.V = dupParts(t, c.V)
+		c.ShareV = rapid.Bool().Draw(t, "sharev")
+	}
 	switch rapid.IntRange(0, 5).Draw(t, "rel") {
 	case 0:
 		c.Rel, c.W = "copy", c.V
@@ -159,6 +198,9 @@ func zonesDiffer(a, b *m.Val) bool {
 func toYae(c *PairCase, v *m.Val) (*val.Val, error) {
 	if c.Host {
 		return conv.ValOf(run.GoValue(v).Interface())
+	}
+	if c.ShareV && v == c.V {
+		return run.ToYaeValShared(v, nil), nil
 	}
 	return run.ToYaeVal(v, nil), nil
 }
@@ -250,6 +292,9 @@ func checkPair(c *PairCase) *Outcome {
 		}
 		for _, tc := range tests {
 			en2 := run.NewEngine(be, nil)
+			if c.ShareV {
+				en2.Shared = map[string]bool{"v": true}
+			}
 			_ = en
 			got, err := evalBool(en2, tc.src, env, vals)
 			if err != nil {
@@ -261,6 +306,9 @@ func checkPair(c *PairCase) *Outcome {
 		}
 	}
 	classes := []string{"rel:" + c.Rel, fmt.Sprintf("equal:%v", eq)}
+	if c.ShareV && !c.Host {
+		classes = append(classes, "v-with-shared-sub-values")
+	}
 	if c.Host {
 		classes = append(classes, "via-host-data")
 	}
@@ -338,7 +386,7 @@ func eachNumPair(yield func(*NumPair) bool) {
 }
 
 func TestC18(t *testing.T) {
-	R.Rule = "pairs (v, w) of one type (primitives, nested lists / maps / objects / optionals to depth 4): w is a copy, a field-order and insertion-order permutation, v with one leaf changed to a clearly different value (numbers identical or differing by > 1e-6, across 2^53 and 2^63; strings needing escapes; instants, several zones), or unrelated; built through the value constructors or as Go host data through conv; oracle: agreement of val.Equals, Val.String equality, Val.Key equality, isset([v:1], w), union / intersect / diff cardinalities, == / != and string(v) == string(w) for equal values, labelled by the model's own equality; reflexivity and symmetry; plus all pairs of the boundary numeric pool for distinct renderings and keys; non-trivial = a model-equal pair in another representation, or a pair differing in exactly one leaf"
+	R.Rule = "pairs (v, w) of one type (primitives, nested lists / maps / objects / optionals to depth 4): w is a copy, a field-order and insertion-order permutation, v with one leaf changed to a clearly different value (numbers identical or differing by > 1e-6, across 2^53 and 2^63; strings needing escapes; instants, several zones), or unrelated; built through the value constructors (one case in six with repeated sub-values being one shared value on the v side only) or as Go host data through conv; oracle: agreement of val.Equals, Val.String equality, Val.Key equality, isset([v:1], w), union / intersect / diff cardinalities, == / != and string(v) == string(w) for equal values, labelled by the model's own equality; reflexivity and symmetry; plus all pairs of the boundary numeric pool for distinct renderings and keys; non-trivial = a model-equal pair in another representation, or a pair differing in exactly one leaf"
 	R.Assume = []string{"model.ValEqual (harness) labels pairs; numbers inside a pair are identical or clearly different (the property's own restriction)"}
 	reportKnown(t, "C18")
 	runRegress(t, "C18")
